@@ -97,6 +97,13 @@ func (e *Engine) CleanPacket(n *world.Node, u *world.Account, dst, relay string,
 	return e.user(n, u, "clean", fmt.Sprintf("%s N=%d via %q", dst, seq, relay), packettypes.NewMsgCleanPacket(cp, u.Addr))
 }
 
+// CleanPacketFrom submits a MsgCleanPacket whose source_chain field names src
+// (which need not be the executing chain).
+func (e *Engine) CleanPacketFrom(n *world.Node, u *world.Account, src, dst, relay string, seq uint64) *world.TxResult {
+	cp := packettypes.NewCleanPacket(seq, src, dst, relay)
+	return e.user(n, u, "clean", fmt.Sprintf("%s->%s N=%d via %q (foreign source)", src, dst, seq, relay), packettypes.NewMsgCleanPacket(cp, u.Addr))
+}
+
 func (e *Engine) acct(addr string) *world.Account {
 	for _, a := range e.W.Users {
 		if a.Addr.String() == addr {
